@@ -173,9 +173,10 @@ def accessor_is(ctx, rule, fname, fields):
 
 def parse_loop_fn(ctx):
     """Name of the function that drives the parser state machine (calls parse_request_line)."""
-    for f in ctx.facts.fns.values():
-        if f.name.startswith(P) and list(f.calls_to(PARSE_RL)):
-            return f.name
+    from .util import known_callers
+    ks = sorted(n for n in known_callers(ctx.facts, PARSE_RL) if n.startswith(P))
+    if ks:
+        return ks[0]
     raise AnalysisError("no function of HttpConnection calls parse_request_line")
 
 
